@@ -47,6 +47,9 @@ func stateBodyBody(s *Scanner, c byte) *jerr.JApiError {
 	case ContextOpenSign:
 		s.found(ContextOpen)
 		return nil
+	case CommentSign:
+		// A comment between the directive and its body, like for the other directives with a body.
+		return s.startComment()
 	default:
 		s.step = s.stepStack.Pop()
 		return s.step(s, c)
